@@ -247,8 +247,7 @@ fn variant_no(m: &SyncRequestMessage) -> u8 {
 const DECODE_ERR: u8 = 0;
 const NOT_A_POLL: u8 = 1;
 
-/// decode -> receive on an arbitrary valid responder -> poll without a graph.
-/// Returns (what receive did, what poll did).
+/// decode -> receive on an arbitrary valid responder. Returns (what receive did, 0).
 fn process_poll_bytes(data: &[u8]) -> (u8, u8) {
     match SyncIncoming::decode(data) {
         Ok(SyncIncoming::Poll(p)) => {
@@ -260,9 +259,10 @@ fn process_poll_bytes(data: &[u8]) -> (u8, u8) {
             let pre_session = r.session_id;
             let res = r.receive(p);
             let d = check_dispatch(&r, &res, pre_state, pre_session, msg_session, variant);
-            let q = poll_without_graph(&mut r);
+            // (`poll` afterwards: decided for every valid responder state by
+            // c18_responder_poll_any_state / c18_responder_dispatch_structured)
             core::mem::forget(r);
-            (d, q)
+            (d, 0)
         }
         Ok(_) => (NOT_A_POLL, 0),
         Err(_) => (DECODE_ERR, 0),
@@ -300,15 +300,15 @@ macro_rules! raw_poll_harness {
 
 raw_poll_harness!(c18_responder_raw_end_session, 22, [0, 3],
     [DECODE_ERR, DISPATCH_OTHER_SESSION, DISPATCH_STOPPED],
-    [POLL_NOT_READY],
+    [],
     [1 2 3 4 5 6 7 8 9 10 11 12 13 14 15 16 17 18 19 20 21 22 23 24]);
 raw_poll_harness!(c18_responder_raw_sync_resume, 24, [0, 2],
     [DECODE_ERR, DISPATCH_OTHER_SESSION, DISPATCH_UNSUPPORTED],
-    [POLL_WROTE_END_SESSION, POLL_TARGET_TOO_SMALL],
+    [],
     [1 2 3 4 5 6 7 8 9 10 11 12 13 14 15 16 17 18 19 20 21 22 23 24]);
 raw_poll_harness!(c18_responder_raw_request_missing, 24, [0, 1],
     [DECODE_ERR, DISPATCH_OTHER_SESSION, DISPATCH_UNSUPPORTED],
-    [POLL_WROTE_END_SESSION, POLL_TARGET_TOO_SMALL],
+    [],
     [1 2 3 4 5 6 7 8 9 10 11 12 13 14 15 16 17 18 19 20 21 22 23 24]);
 
 // ---------------------------------------------------------------------------------------------
